@@ -2,6 +2,7 @@ package props
 
 import (
 	"fmt"
+	"strings"
 
 	"verif/checker/load"
 	"verif/checker/report"
@@ -41,6 +42,8 @@ func init() {
 				if res := c.limbInvariant(cfg); res != nil && len(res.problems) == 0 {
 					c.ruleWideAndReduce(cfg, res.box)
 				}
+				// decode side of the round trip: the even root is chosen on the fully reduced value
+				c.e9AbsoluteNegate(cfg)
 				if a := c.Eff(cfg); a != nil {
 					c.addAll(keep(a.RFresh(), func(o report.Obligation) bool { return keyHasFunc(o, nameSet([]string{"(*Point).Bytes"})) }))
 					// no hidden state: the encoder reads the coordinates and writes nothing of the point
@@ -175,6 +178,12 @@ func init() {
 				}
 				c.e9AbsoluteNegate(cfg)
 				c.ruleFieldExponents(cfg)
+				// premise of "for every history": the operations keep no state outside their operands
+				if a := c.Eff(cfg); a != nil {
+					c.addAll(keep(a.RGlobal(), func(o report.Obligation) bool {
+						return strings.HasPrefix(o.Key, "R-GLOBAL/field.") || strings.HasPrefix(o.Key, "R-GLOBAL/var:field.")
+					}))
+				}
 			}
 		},
 	})
